@@ -151,7 +151,7 @@ def gen_mixed(rng, focus=None, tier="quick"):
 
 def gen_growth(rng, tier="quick"):
     cfg = _valid_cfg(rng, tier == "thorough")
-    cfg["qsize"] = rng.choice([0, 0, 0, 4])
+    cfg["qsize"] = rng.choice([0, 0, 0, 4, 1, 2])
     to = cfg["timeout"]
     mx = cfg["max"]
     k = rng.randint(1, mx)
@@ -282,6 +282,10 @@ def gen_race(rng):
         ctl = [["start"]]
         if rng.random() < 0.5:
             ctl.append(["enq", "ret", 0])
+        if rng.random() < 0.35:
+            # the public clear() on a running pool while a task is inside its body, instead of a stop/start cycle
+            ctl += [["enq", "sleep", 1.0], ["sleep", 0.25], ["clear"], ["enq", "bar", [0, 2]], ["enq", "bar", [0, 2]]]
+            return {"family": "growth", "cfg": cfg, "threads": [ctl, [["enq", "ret", 0]]], "sweep": True}
         ctl += [["stop"], ["start"], ["enq", "bar", [0, 2]], ["enq", "bar", [0, 2]]]
         return {"family": "growth", "cfg": cfg, "threads": [ctl, [["enq", "ret", 0]]], "sweep": True}
     mx = rng.choice([1, 1, 2])
